@@ -591,6 +591,23 @@ class PE:
                 return UNK
             eq = x == y
             return ("b", eq if cal.endswith("eq") else not eq)
+        if n.startswith("std::cmp::Ordering::") or n.startswith("core::cmp::Ordering::"):
+            v = a(0)
+            tail = n.rsplit("::", 1)[-1]
+            if v is not None and v[0] == "adt" and v[1] in (0, 1, 2):
+                sgn = v[1] - 1
+                preds = {"is_eq": sgn == 0, "is_ne": sgn != 0, "is_lt": sgn < 0, "is_gt": sgn > 0,
+                         "is_le": sgn <= 0, "is_ge": sgn >= 0}
+                if tail in preds:
+                    return ("b", preds[tail])
+                if tail == "reverse":
+                    return ("adt", 2 - v[1], ())
+                if tail == "then":
+                    w = a(1)
+                    if sgn != 0:
+                        return v
+                    return w if (w is not None and w[0] == "adt") else UNK
+            return UNK
         if n.endswith("Result::<T, E>::map_err"):
             v = a(0)
             if v is not None and v[0] == "adt":
